@@ -62,7 +62,7 @@ PROPS = {
     },
     "C06": {
         "title": "Clause selection returns exactly the clauses whose heads unify",
-        "v_units": ["indexkey", "indexmerge"], "s_checks": ["switch_routes", "lookahead", "dynamic_dead_end"],
+        "v_units": ["indexkey", "indexmerge", "switchsel"], "s_checks": ["switch_routes", "lookahead", "dynamic_dead_end"],
         "k_groups": [],
         "replay": "index",
         "level": "proof",
@@ -83,8 +83,8 @@ PROPS = {
     },
     "C05": {
         "title": "Equal integers behave identically regardless of how they were produced",
-        "v_units": ["unifynum", "numcmp", "arith"],
-        "ob_filter": {"arith": [r"^(arena_from_i64|arena_from_isize|arena_from_usize|round|floor|ceiling|truncate)::"], "numcmp": [r"^(Number_cmp|Number_eq)::", r"^lemma::lemma_int_cmp_by_value$"]},
+        "v_units": ["unifynum", "numcmp", "arith", "switchsel", "termcmp"],
+        "ob_filter": {"switchsel": [r"^select_switch_on_term_index::"], "termcmp": [r"^ParallelHeapIter_parallel_cmp::", r"^MachineState_(compare_term_test|eq_test)::"], "arith": [r"^(arena_from_i64|arena_from_isize|arena_from_usize|round|floor|ceiling|truncate)::"], "numcmp": [r"^(Number_cmp|Number_eq)::", r"^lemma::lemma_int_cmp_by_value$"]},
         "s_checks": ["switch_routes"],
         "k_groups": ["fixnum_repr"],
         "replay": "index",
